@@ -67,6 +67,17 @@ def gen_query(rng, world, heavy_w):
         groups += ["enth", "henry", "fit"]
     if fam and ("partner" in r or "model" in r):
         groups += ["iast"]
+    if "usergas_twin" in r and rng.random() < 0.3:
+        # "the same" user gas as two distinct Adsorbate objects with other constants: queries that need them, on either
+        i = rng.choice([r["usergas"], r["usergas_twin"]])
+        what = rng.choice(["pressure", "loading_at", "loading"])
+        if what == "pressure":
+            return {"g": "access", "q": "pressure", "iso": i, "branch": "ads", "kw": rng.choice([{"pressure_mode": "relative"}, {"pressure_mode": "relative%"}])}
+        if what == "loading":
+            return {"g": "access", "q": "loading", "iso": i, "branch": "ads",
+                    "kw": rng.choice([{"loading_basis": "volume_liquid", "loading_unit": "cm3"}, {"loading_basis": "mass", "loading_unit": "mg"}])}
+        return {"g": "interp", "q": "loading_at", "iso": i, "branch": "ads", "kind": "linear", "fill": None, "frac": 0.5,
+                "kw": {"pressure_mode": "relative"}}
     g = rng.choice(groups)
     q = {"g": g}
     if g == "access":
@@ -132,6 +143,10 @@ def gen_query(rng, world, heavy_w):
         heavy = rng.random() < heavy_w
         what = rng.choice(["area_BET", "area_BET", "area_langmuir", "t_plot", "t_plot", "alpha_s", "dr_plot", "psd_mesoporous", "psd_mesoporous",
                            "psd_microporous"] + (["da_plot", "psd_dft"] if heavy else []))
+        if rng.random() < 0.08:
+            what = "psd_dft"      # with a user-supplied kernel file (a good one, or one with a spreadsheet error in a cell)
+            q.update(q=what, iso=i, kw={"kernel": rng.choice(["@BADKERNEL", "@BADKERNEL", "@GOODKERNEL"])})
+            return q
         q.update(q=what, iso=i)
         if what in ("area_BET", "area_langmuir"):
             q["kw"] = rng.choice([{}, {}, {"p_limits": [0.05, 0.3]}, {"branch": "des"}, {"p_limits": [0.5, 0.1]}])
@@ -162,7 +177,8 @@ def gen_query(rng, world, heavy_w):
             q["kw"] = rng.choice([{}, {"bspline_order": 3}, {"branch": "des"},
                                   {"kernel_units": {"loading_basis": "volume_gas", "loading_unit": "cm3"}},
                                   {"kernel_units": {"loading_unit": "mmoles"}}, {"kernel_units": {"pressure_mode": "relative%"}},
-                                  {"p_limits": [0.0, 0.5]}, {"kernel": "nope"}])
+                                  {"p_limits": [0.0, 0.5]}, {"kernel": "nope"}, {"kernel": "@GOODKERNEL"}, {"kernel": "@BADKERNEL"},
+                                  {"kernel": "@BADKERNEL"}])
     elif g == "enth":
         what = rng.choice(["isosteric_enthalpy", "enthalpy_sorption_whittaker", "enthalpy_sorption_whittaker", "initial_enthalpy_point",
                            "initial_enthalpy_comp"])
@@ -283,6 +299,8 @@ def gen_related(rng, world, prev):
         q["kw"] = rng.choice([{}, {}, {"optimization_params": {"max_nfev": 50}}])
         return q
     if g == "n2char" and prev["q"] == "psd_dft":
+        if (prev.get("kw") or {}).get("kernel", "").startswith("@") and rng.random() < 0.7:
+            return q                                                                       # the same user kernel again
         q["kw"] = rng.choice([{}, {}, {"bspline_order": 3}, dict(prev.get("kw") or {})])   # mostly: the default call next
         return q
     if g == "n2char":
@@ -448,8 +466,35 @@ def exec_query(objs, q, scratch):
         return dg.canon_error(e)
 
 
+KERNEL_FILES = {}   # "@GOODKERNEL"/"@BADKERNEL" -> path, filled by the session factory
+
+
+def make_kernel_files(scratch):
+    """A user-supplied kernel file (copy of the shipped one) and a malformed one (a spreadsheet error in one cell)."""
+    import os
+    import pygaps.data
+    src = str(pygaps.data.KERNELS["DFT-N2-77K-carbon-slit"])
+    text = open(src, encoding="utf8").read()
+    good = os.path.join(scratch, "user-kernel.csv")
+    bad = os.path.join(scratch, "user-kernel-malformed.csv")
+    if not os.path.exists(good):
+        with open(good, "w", encoding="utf8") as fh:
+            fh.write(text)
+        lines = text.splitlines()
+        mid = len(lines) // 2
+        cells = lines[mid].split(",")
+        cells[len(cells) // 2] = "#VALUE!"
+        lines[mid] = ",".join(cells)
+        with open(bad, "w", encoding="utf8") as fh:
+            fh.write("\n".join(lines) + "\n")
+    KERNEL_FILES["@GOODKERNEL"] = good
+    KERNEL_FILES["@BADKERNEL"] = bad
+
+
 def _kw(q):
     kw = dict(q.get("kw") or {})
+    if kw.get("kernel") in KERNEL_FILES:
+        kw["kernel"] = KERNEL_FILES[kw["kernel"]]
     for k in ("p_limits", "t_limits", "limits"):
         if k in kw and isinstance(kw[k], list):
             kw[k] = tuple(kw[k])
@@ -625,6 +670,7 @@ def cache_state(objs, q):
 def execute(ctx, world, rng=None, steps=None, cfg=None):
     from sim.core import env
     scratch = env.new_run_dir("c04")
+    make_kernel_files(scratch)       # written once by the worker (plain file copies), inherited by the forked sessions
     sut = Session(_sut_factory(world, scratch), name="SUT")
     zyg = Session(_zygote_factory(world, scratch), name="Z")
     events = []
